@@ -518,10 +518,12 @@ def check_path(spec, inst, st, res, rng, tr, seeds, angle_pins, g):
         # (weaker hypotheses: unsat is still a proof; the seed remains the reachability witness); counted in the evidence
         pcm = eopt.get("pc_max_terms", inst.get("pc_max_terms"))
         if pcm:
-            nbig = sum(1 for _, c in pc if len(c.p) > pcm)
-            if nbig:
-                pc = [(i, c) for i, c in pc if len(c.p) <= pcm]
-                res.extra["path_literals_left_out_by_size_weaker_hypotheses"] = res.extra.get("path_literals_left_out_by_size_weaker_hypotheses", 0) + nbig
+            def _lit_size(c):      # the literal plus the defining constraints (roots, inverses, ...) it drags into a query
+                return len(c.p) + sum(len(d.p) for d in enc.closure([c.p])[1])
+            keep = [(i, c) for i, c in pc if _lit_size(c) <= pcm]
+            if len(keep) < len(pc):
+                res.extra["path_literals_left_out_by_size_weaker_hypotheses"] = res.extra.get("path_literals_left_out_by_size_weaker_hypotheses", 0) + len(pc) - len(keep)
+                pc = keep
         res.encode_time += time.time() - t0
         if DEBUG:
             log("[%s g%d f%d] free=%s encoded in %.2fs stats=%s maxterms=%d pc=%d" % (inst["name"], g, fi, free if free_all else sorted(free)[-3:], time.time() - t0, enc.stats, max((len(p) for p in enc.memo.values()), default=0), len(pc)))
